@@ -134,7 +134,7 @@ func checkC20(c *Check) {
 
 	// ---------------- R20.3 ----------------
 	r3 := c.Rule("R20.3", "OrderedMap.data has a closed writer set; Set/Get/Delete locate through binarySearch; copies keep the predicate pair", 6)
-	writersOK := map[string]bool{"parser.New": true, "parser.Copy": true, "parser.(*OrderedMap).Set": true, "parser.(*OrderedMap).Delete": true}
+	writersOK := map[string]bool{"ordered_map.New": true, "ordered_map.Copy": true, "ordered_map.(*OrderedMap).Set": true, "ordered_map.(*OrderedMap).Delete": true}
 	om := L.ByRel["src/parser/ordered_map"]
 	for _, w := range L.FieldWrites(func(v *types.Var) bool {
 		return v.Name() == "data" && v.Pkg() == om.Types && v.IsField()
